@@ -550,3 +550,130 @@ Proof.
   split. { repeat constructor; unfold byte_ok; lia. }
   intros k Hk. apply nth_error_app1. rewrite app_length. cbn [length]. lia.
 Qed.
+
+(* ---------------------------------------------------------------------------------------------- *)
+(* round i/j (a): the literal scan of rstr.c examines EVERY start offset (coq/Search4Defs.v, Search4Props.v).
+   qualifies ic sp prev s r: the literal of sp occurs at byte r of s (ASCII letters folded under ignorecase) and the word
+   anchors sp carries hold there -- \< : no word byte in front of r (prev = the byte in front of the subject, None = nothing is
+   seen, as the code calls the matcher on a line suffix) and a word byte at r; \> : a word byte in front of the end and none at it.
+   The for loop returns the LEAST qualifying offset of its window and none only when none qualifies: an occurrence that fails
+   its boundary test is not "stepped over" -- the next occurrence may begin inside it (aa in baaa, a-a in ba-a-a, abab in ababab). *)
+From NV Require Import Search4Defs Search4Props.
+
+Theorem C13_literal_scan_least : forall ic sp prev s cnt b,
+  match SearchDefs.rstr_loop ic sp prev s b cnt with
+  | Some (p, e) => b <= p < b + cnt /\ e = p + length (SearchDefs.lit sp) /\ qualifies ic sp prev s p /\
+                   forall q, b <= q < p -> ~ qualifies ic sp prev s q
+  | None => forall q, b <= q < b + cnt -> ~ qualifies ic sp prev s q
+  end.
+Proof. exact rstr_loop_least. Qed.
+Print Assumptions C13_literal_scan_least.
+
+(* rstr_find for a pattern  ^? \<? literal \>? $?  (with or without anchors, any left neighbour, any NOTBOL): the least candidate
+   offset -- the occurrence ends before the last byte of the subject; with ^ only offset 0 where ^ holds, with $ only the
+   offset whose occurrence ends there -- at which the literal qualifies; None exactly when no candidate qualifies.
+   With C13_forward_first_row / C13_backward_last: the first match after / the last of the successive matches before the cursor. *)
+Theorem C13_literal_least : forall ic kw sp prev notbol s, SearchDefs.rstr_simple kw = Some sp ->
+  match ref_find ic kw prev notbol s with
+  | Some (p, e) => e = p + length (SearchDefs.lit sp) /\ candidate sp prev notbol s p /\ qualifies ic sp prev s p /\
+                   forall q, q < p -> candidate sp prev notbol s q -> ~ qualifies ic sp prev s q
+  | None => forall q, candidate sp prev notbol s q -> ~ qualifies ic sp prev s q
+  end.
+Proof. exact ref_literal_least. Qed.
+Print Assumptions C13_literal_least.
+
+(* the same about the C TEXT: the matcher of C13_tr_lbuf_search_literal (TrSearchLit.find_lit rs = what the translated rstr_find
+   computes, TrRstr.tr_rstr_find) returns the least offset of the line at which the anchored literal is satisfied (RstrDefs.sat_b,
+   the declarative reading C12 uses), for every struct rstr, line and NOTBOL (coq/TrSearchLit2.v, from RstrProps.equiv_spec) *)
+From NV Require TrSearchLit2.
+Theorem C13_tr_literal_least : forall rs content nb,
+  ~ In 0%N content -> ~ In 10%N content -> ~ In 10%N (RstrDefs.r_str rs) ->
+  let L := content ++ [10%N] in
+  match TrSearchLit.find_lit rs L nb with
+  | Some (p, e) => p <= length content /\ e = p + length (RstrDefs.r_str rs) /\
+                   RstrDefs.sat_b (RstrDefs.spat_of rs) (RstrDefs.r_icase rs) nb L p = true /\
+                   forall q, q < p -> RstrDefs.sat_b (RstrDefs.spat_of rs) (RstrDefs.r_icase rs) nb L q = false
+  | None => forall q, q <= length content -> RstrDefs.sat_b (RstrDefs.spat_of rs) (RstrDefs.r_icase rs) nb L q = false
+  end.
+Proof. exact TrSearchLit2.find_lit_least. Qed.
+Print Assumptions C13_tr_literal_least.
+
+(* non-vacuity: aa\> on "baaa aa": the occurrence at byte 1 fails \> (an a follows), the one at byte 2 -- inside it -- qualifies and
+   is the answer, not the isolated aa at 5;  \<a-a on "ba-a-a": 1 fails \< (b in front), 3 qualifies;  and through the whole model:
+   /aa\> from the top of  start | baaa aa  lands on (1,2);  ?aa\> from  end  below  aa baaa  on the LAST match (0,5);
+   2/abab\> over  xx ababab abab  on (0,10) *)
+Example C13_nonvacuous_overlap :
+  let aaw := [97; 97; 92; 62]%N in let baaa := [98; 97; 97; 97; 32; 97; 97; 10]%N in
+  (exists sp, SearchDefs.rstr_simple aaw = Some sp /\ SearchDefs.wend sp = true /\
+     qualifiesb true sp None baaa 1 = false /\ occurs_atb true (SearchDefs.lit sp) baaa 1 = true /\ qualifiesb true sp None baaa 2 = true) /\
+  ref_find true aaw None false baaa = Some (2, 4) /\
+  ref_find true [92; 60; 97; 45; 97]%N None false [98; 97; 45; 97; 45; 97; 10]%N = Some (3, 6) /\
+  ref_run true sstate0 [[115; 116; 97; 114; 116; 10]%N; baaa] [(CSlash aaw, 1)] 0 0 = [(true, (1, 2))] /\
+  ref_run true sstate0 [[97; 97; 32; 98; 97; 97; 97; 10]%N; [101; 110; 100; 10]%N] [(CQuest aaw, 1)] 1 0 = [(true, (0, 5))] /\
+  ref_run true sstate0 [[120; 120; 32; 97; 98; 97; 98; 97; 98; 32; 97; 98; 97; 98; 10]%N] [(CSlash [97; 98; 97; 98; 92; 62]%N, 2)] 0 0 = [(true, (0, 10))].
+Proof. cbv zeta. split; [eexists; split; [reflexivity|]; vm_compute; repeat split; reflexivity|]. vm_compute. repeat split; reflexivity. Qed.
+
+(* ---------------------------------------------------------------------------------------------- *)
+(* round i/j (b): what a search can inherit from the searches before it.
+   The session state of the model is sstate = (last pattern kwd, direction kdir, line offset soset/so); the code has one more
+   variable that survives between searches: the file-static flag re_bad of regex.c, written by the parser and read by regcomp
+   (coq/ReStateDefs.v threads it through rset_make -> regcomp -> the parser; C10 proves the compile chain answers as the pure
+   function whatever the flag was).  lbuf_search compiles its pattern on every call, so a session of search commands is a
+   sequence of compilations. *)
+
+(* a / or ? command that carries a pattern of its own: outcome, landing position and the state it leaves do not depend on
+   the state before it -- they are functions of (text, cursor, typed text, count, matcher) *)
+Theorem C13_prompt_forgets : forall fmk rcomp st st' lb cmd cnt xrow xoff, carries_pattern cmd = true ->
+  search_cmd fmk rcomp st lb cmd cnt xrow xoff = search_cmd fmk rcomp st' lb cmd cnt xrow xoff.
+Proof. exact prompt_forgets. Qed.
+Print Assumptions C13_prompt_forgets.
+
+(* two arbitrary histories (any initial states, any commands, any start) that leave the cursor at the same place: from a
+   command that carries its pattern on, the results of the rest of the session are the same *)
+Theorem C13_history_irrelevant : forall fmk rcomp lb h1 h2 st1 st2 x1 y1 x2 y2 cmd n rest, carries_pattern cmd = true ->
+  snd (state_after fmk rcomp st1 lb h1 x1 y1) = snd (state_after fmk rcomp st2 lb h2 x2 y2) ->
+  skipn (length h1) (run_cmds fmk rcomp st1 lb (h1 ++ (cmd, n) :: rest) x1 y1) =
+  skipn (length h2) (run_cmds fmk rcomp st2 lb (h2 ++ (cmd, n) :: rest) x2 y2).
+Proof. exact history_irrelevant. Qed.
+Print Assumptions C13_history_irrelevant.
+
+(* a history of FAILED commands (malformed patterns, patterns without a match, bad offsets) is invisible: the command that
+   carries its pattern, and everything after it, run as in a fresh session started at the same cursor *)
+Theorem C13_failed_history_invisible : forall fmk rcomp lb hist st xrow xoff cmd n rest, carries_pattern cmd = true ->
+  Forall (fun x => fst x = false) (run_cmds fmk rcomp st lb hist xrow xoff) ->
+  run_cmds fmk rcomp st lb (hist ++ (cmd, n) :: rest) xrow xoff =
+  run_cmds fmk rcomp st lb hist xrow xoff ++ run_cmds fmk rcomp sstate0 lb ((cmd, n) :: rest) xrow xoff.
+Proof. exact failed_history_invisible. Qed.
+Print Assumptions C13_failed_history_invisible.
+
+(* the compile chain of the code -- fast path of rstr_make, else rset_make -> regcomp("((kw))") with the flag threaded and
+   "re_bad = 0;" on entry -- answers as the pure function, whatever the flag was *)
+Theorem C13_compile_flag_free : forall ic kw fl, fst (code_rcomp_st ic kw fl) = code_rcomp ic kw.
+Proof. exact code_rcomp_flag_free. Qed.
+Print Assumptions C13_compile_flag_free.
+
+(* the session with the flag (run_cmds_st: SearchDefs.run_cmds with the flag handed from every compilation to the next): for every
+   matcher, text, cursor, initial search state, EVERY sequence of / ? n N ^A commands with counts and every value of the flag at
+   the start, outcomes and landing positions are those of the flag-free model -- so every theorem above applies to every search
+   of a session, whatever was compiled and rejected before it *)
+Theorem C13_session_flag_free : forall fmk ic lb cmds st xrow xoff fl,
+  fst (run_cmds_st fmk (code_rcomp_st ic) st lb cmds xrow xoff fl) = run_cmds fmk (code_rcomp ic) st lb cmds xrow xoff.
+Proof. exact session_flag_free. Qed.
+Print Assumptions C13_session_flag_free.
+
+(* non-vacuity:  a{3,2}  a{200}  (|)  are rejected by the parser of regex.c,  (a  by re_groupcount of rset.c,  b.d  compiles;
+   /a{3,2} then /b.d from the top of  start | xx abd | b-d here : the first fails in place, the second lands on (2,0), also when
+   the session starts with the flag set;  and the statement is about "re_bad = 0;" on entry: with the flag cleared where it is
+   consumed instead (code_rcomp_gen false), the valid search after the malformed one fails -- the cursor stays at (0,0) *)
+Example C13_nonvacuous_history :
+  let lb := [[115; 116; 97; 114; 116; 10]%N; [120; 120; 32; 97; 98; 100; 10]%N; [98; 45; 100; 32; 104; 101; 114; 101; 10]%N] in
+  let fm := fm_suffix (ref_rfind true) in
+  let cmds := [(CSlash [97; 123; 51; 44; 50; 125]%N, 1); (CSlash [98; 46; 100]%N, 1)] in
+  code_rcomp true [97; 123; 51; 44; 50; 125]%N = false /\ code_rcomp true [97; 123; 50; 48; 48; 125]%N = false /\ code_rcomp true [40; 124; 41]%N = false /\
+  code_rcomp true [40; 97]%N = false /\ code_rcomp true [98; 46; 100]%N = true /\
+  fst (run_cmds_st fm (code_rcomp_st true) sstate0 lb cmds 0 0 true) = [(false, (0, 0)); (true, (2, 0))] /\
+  run_cmds fm (code_rcomp true) sstate0 lb cmds 0 0 = [(false, (0, 0)); (true, (2, 0))] /\
+  fst (run_cmds_st fm (code_rcomp_gen false true) sstate0 lb cmds 0 0 false) = [(false, (0, 0)); (false, (0, 0))] /\
+  carries_pattern (CSlash [98; 46; 100]%N) = true /\
+  Forall (fun x => fst x = false) (run_cmds fm (code_rcomp true) sstate0 lb [(CSlash [97; 123; 51; 44; 50; 125]%N, 1)] 0 0).
+Proof. cbv zeta. repeat (split; [vm_compute; reflexivity|]). vm_compute. repeat constructor. Qed.
